@@ -114,6 +114,8 @@ def build(S, v):
         return m
     if isinstance(S, api.Dict):
         return dict(v) if isinstance(v, dict) and '__term__' not in v else {}
+    if isinstance(S, api.Fn):
+        raise ReqNotMet('callable parameter: no native stand-in')
     if isinstance(S, api.Union):
         return v
     return v
